@@ -9,6 +9,17 @@ The statements quantify over every schema, population, link-table content, cache
 namespace SqlObjVerif.Graph
 open Classical
 
+/-- what "the new database is the old one minus the cascade closure of the victim" means -/
+def ClosureDeleted (S : Schema) (db : DB) (c i : Nat) (db' : DB) : Prop :=
+    (∀ x, Present db' x ↔ Present db x ∧ ¬ Reach S db (c, i) x) ∧
+    (∀ r' ∈ db'.rows, ∃ r ∈ db.rows, r.key = r'.key ∧ r.vals.length = r'.vals.length ∧ ∀ f,
+        r'.val f = if (S.fk r.cls f).policy = .setNull ∧
+                      ∃ j, r.val f = some j ∧ Reach S db (c, i) ((S.fk r.cls f).target, j)
+                   then none else r.val f) ∧
+    (∀ l, l ∈ db'.links ↔ l ∈ db.links ∧ ¬ ∃ y, Reach S db (c, i) y ∧ Touches S l y) ∧
+    (∀ x, x ∈ db'.cache ↔ x ∈ db.cache ∧ ¬ Reach S db (c, i) x) ∧
+    (∀ x, Reach S db (c, i) x → reachable db' x.1 x.2 = false)
+
 /-- **C12, success.**  For every schema, population (ids unique per class), victim and recursion
     budget: if `destroySelf` returns normally then, with `Cl = ` cascade closure of the victim in the
     old database,
@@ -19,18 +30,11 @@ open Classical
       member of `Cl`;
     * the cache keeps exactly the entries outside `Cl`, and no member of `Cl` is reachable by id. -/
 theorem C12_destroy_spec (S : Schema) (n : Nat) (db db' : DB) (c i : Nat) (hwf : db.WF)
-    (hok : destroy S n db c i = .ok db') :
-    (∀ x, Present db' x ↔ Present db x ∧ ¬ Reach S db (c, i) x) ∧
-    (∀ r' ∈ db'.rows, ∃ r ∈ db.rows, r.key = r'.key ∧ r.vals.length = r'.vals.length ∧ ∀ f,
-        r'.val f = if (S.fk r.cls f).policy = .setNull ∧
-                      ∃ j, r.val f = some j ∧ Reach S db (c, i) ((S.fk r.cls f).target, j)
-                   then none else r.val f) ∧
-    (∀ l, l ∈ db'.links ↔ l ∈ db.links ∧ ¬ ∃ y, Reach S db (c, i) y ∧ Touches S l y) ∧
-    (∀ x, x ∈ db'.cache ↔ x ∈ db.cache ∧ ¬ Reach S db (c, i) x) ∧
-    (∀ x, Reach S db (c, i) x → reachable db' x.1 x.2 = false) := by
+    (hok : destroy S n db c i = .ok db') : ClosureDeleted S db c i db' := by
   have E : Ev S (Reach S db (c, i)) db db' := by
     have := (recOK_destroy S n).ev db c i; rw [hok] at this; exact this
   have C : ∀ x, Reach S db (c, i) x → Clean S db' x := fun x hx => closure_clean hwf hok hx
+  unfold ClosureDeleted
   refine ⟨?_, ?_, ?_, ?_, ?_⟩
   · intro x
     constructor
@@ -130,23 +134,52 @@ theorem C12_refused_only_if_restricted (S : Schema) (n : Nat) (db db' : DB) (c i
     ∃ x, Reach S db (c, i) x ∧ ∃ r ∈ db.rows, ∃ f, (S.fk r.cls f).policy = .restrict ∧ RefVia S r f x :=
   refusedOK_destroy S n db c i db' hr
 
-/-- **C12, refusal, both directions** for acyclic data when no restricting row sits inside the closure:
-    refused ⇔ some row references a closure member through a `cascade=False` key. -/
-theorem C12_refused_iff_partial (S : Schema) (ρ : Key → Nat) (n : Nat) (db : DB) (c i : Nat) (hwf : db.WF)
-    (hrk : Ranked S db ρ) (hn : ρ (c, i) < n)
-    (hout : ∀ r ∈ db.rows, ∀ f x, (S.fk r.cls f).policy = .restrict → Reach S db (c, i) x → RefVia S r f x →
-      ¬ Reach S db (c, i) r.key) :
-    (∃ db', destroy S n db c i = .refused db') ↔
-      ∃ x, Reach S db (c, i) x ∧ ∃ r ∈ db.rows, ∃ f, (S.fk r.cls f).policy = .restrict ∧ RefVia S r f x := by
+/-- acyclicity of the data is exactly the existence of a rank -/
+theorem C12_acyclic_iff_ranked (S : Schema) (db : DB) : AcyclicData S db ↔ ∃ ρ, Ranked S db ρ :=
+  ⟨fun h => ⟨_, (ranked_of_acyclic h).1⟩, fun ⟨_, h⟩ _ p => Nat.lt_irrefl _ (p.rank_lt h)⟩
+
+/-- **C12, termination from plain acyclicity.**  If no row reaches itself through cascade=True references, one
+    activation per row (plus one) is enough: `destroySelf` returns or is refused, never `RecursionError`
+    (the graph lemma `ranked_of_acyclic` supplies the rank: longest chain of referrers, ≤ number of rows). -/
+theorem C12_destroy_terminates_of_acyclic (S : Schema) (db : DB) (c i : Nat) (hac : AcyclicData S db) :
+    (destroySelf S db c i).isFuel = false := by
+  obtain ⟨hr, hb⟩ := ranked_of_acyclic hac
+  exact C12_destroy_terminates_acyclic S _ _ db c i hr (Nat.lt_succ_of_le (hb (c, i)))
+
+/-- … and any larger recursion limit gives the very same outcome: the budget is not part of the behaviour -/
+theorem C12_fuel_irrelevant (S : Schema) (db : DB) (c i : Nat) (hac : AcyclicData S db) (m : Nat)
+    (hm : db.rows.length + 1 ≤ m) : destroy S m db c i = destroySelf S db c i :=
+  destroy_fuel_mono S _ m db c i (C12_destroy_terminates_of_acyclic S db c i hac) hm
+
+/-- **C12 without fuel.**  On acyclic data with unique ids `destroySelf` has exactly two outcomes: it returns and
+    the new database is the old one minus the cascade closure (`ClosureDeleted`), or it is refused and some row
+    references a row of the closure through a `cascade=False` key. -/
+theorem C12_destroySelf_acyclic (S : Schema) (db : DB) (c i : Nat) (hwf : db.WF) (hac : AcyclicData S db) :
+    (∃ db', destroySelf S db c i = .ok db' ∧ ClosureDeleted S db c i db') ∨
+    (∃ db', destroySelf S db c i = .refused db' ∧ Restricted S db (c, i)) := by
+  have hnf := C12_destroy_terminates_of_acyclic S db c i hac
+  cases hres : destroySelf S db c i with
+  | ok db' => exact .inl ⟨db', rfl, C12_destroy_spec S _ db db' c i hwf hres⟩
+  | refused db' => exact .inr ⟨db', rfl, C12_refused_only_if_restricted S _ db db' c i hres⟩
+  | fuel db' => rw [hres] at hnf; cases hnf
+
+/-- **C12, refusal, both directions.**  On acyclic data: refused ⇔ some row references a closure member through a
+    `cascade=False` key — provided that, when there are such rows at all, at least one of them lies outside the
+    closure.  (When every restricting row is itself inside the closure the outcome depends on the order in which
+    the classes were declared: `C12_refusal_order_dependent`.) -/
+theorem C12_refused_iff_partial (S : Schema) (db : DB) (c i : Nat) (hwf : db.WF) (hac : AcyclicData S db)
+    (hout : Restricted S db (c, i) →
+      ∃ x, Reach S db (c, i) x ∧ ∃ r ∈ db.rows, ∃ f, (S.fk r.cls f).policy = .restrict ∧ RefVia S r f x ∧
+        ¬ Reach S db (c, i) r.key) :
+    (∃ db', destroySelf S db c i = .refused db') ↔ Restricted S db (c, i) := by
   constructor
   · rintro ⟨db', hr⟩
-    exact C12_refused_only_if_restricted S n db db' c i hr
-  · rintro ⟨x, hx, r, hr, f, hp, hf⟩
-    have hnf := C12_destroy_terminates_acyclic S ρ n db c i hrk hn
-    cases hres : destroy S n db c i with
-    | ok db' => exact absurd hres (C12_restrict_blocks S n db db' c i hwf r hr (hout r hr f x hp hx hf) f hp x hx hf)
-    | refused db' => exact ⟨db', rfl⟩
-    | fuel db' => rw [hres] at hnf; cases hnf
+    exact C12_refused_only_if_restricted S _ db db' c i hr
+  · intro hres
+    obtain ⟨x, hx, r, hr, f, hp, hf, hnr⟩ := hout hres
+    rcases C12_destroySelf_acyclic S db c i hwf hac with ⟨db', hok, _⟩ | ⟨db', href, _⟩
+    · exact absurd hok (C12_restrict_blocks S _ db db' c i hwf r hr hnr f hp x hx hf)
+    · exact ⟨db', href⟩
 
 /-! ### The full-strength statements are false of the code: witnesses (replayed on the implementation by the
 harness, corpus/C12/corner.json) -/
@@ -205,7 +238,26 @@ theorem C12_restrict_blocks_full_FALSE :
   exact h insS 5 insDB ⟨[], [], []⟩ 0 1 ⟨3, 1, [some 1, some 1]⟩ 1 (2, 1) (by simp [DB.WF, insDB, Row.key])
     (by simp [insDB]) (by decide) hreach ⟨by decide, by decide⟩ (by decide)
 
+/-- the same data with the two identically declared classes `B` and `C` exchanged in the registry (equivalently:
+    `R`'s cascade key pointing at the class that is declared later) -/
+def insS' : Schema := [⟨[], []⟩, ⟨[⟨0, .cascade⟩], []⟩, ⟨[⟨0, .cascade⟩], []⟩, ⟨[⟨2, .cascade⟩, ⟨1, .restrict⟩], []⟩]
+
+/-- when every restricting row lies inside the closure, whether `destroySelf` is refused depends on the order in
+    which the dependent classes were declared — no condition phrased on the reference graph alone (as the
+    property's wording is) can be exact for this case -/
+theorem C12_refusal_order_dependent :
+    destroySelf insS insDB 0 1 = .ok ⟨[], [], []⟩ ∧ destroySelf insS' insDB 0 1 = .refused insDB := by decide
+
 /-! ### Non-vacuity -/
+example : AcyclicData insS insDB := by
+  rw [C12_acyclic_iff_ranked]
+  refine ⟨fun x => 3 - x.1, ?_⟩
+  intro r hr y ⟨f, hp, ht, hv⟩
+  simp only [insDB, List.mem_cons, List.not_mem_nil, or_false] at hr
+  rcases hr with rfl | rfl | rfl | rfl <;> rcases f with _ | _ | f <;>
+    simp_all [Schema.fk, Schema.cls, insS, Row.val, Row.key] <;> omega
+
+
 example : destroy mixS 3 mixDB 0 1 = .ok ⟨[], [], []⟩ := by decide
 example : destroy mixS 3 ⟨[⟨0, 1, []⟩, ⟨1, 1, [some 1, none]⟩], [], []⟩ 0 1 = .refused ⟨[⟨0, 1, []⟩, ⟨1, 1, [some 1, none]⟩], [], []⟩ := by decide
 example : destroy insS 5 insDB 0 1 = .ok ⟨[], [], []⟩ := by decide
